@@ -39,6 +39,11 @@ def _cond(test):
     return None
 
 
+def _leaves(s):
+    """a statement that ends its arm: return / raise, or the exit of an expanded helper body"""
+    return isinstance(s, (ast.Return, ast.Raise)) or type(s).__name__ == 'InlineExit'
+
+
 def find_chain(fn, min_arms=3):
     """the first decision chain in fn with >= min_arms arms all testing one scrutinee against constants: either an
     if/elif/else statement, or (canonical form) consecutive `if c: ... return/raise` statements whose fall-through is the
@@ -67,7 +72,7 @@ def find_chain(fn, min_arms=3):
         for i, s in enumerate(blk):
             arms, scr = [], None
             j = i
-            while j < len(blk) and isinstance(blk[j], ast.If) and not blk[j].orelse and isinstance(blk[j].body[-1], (ast.Return, ast.Raise)):
+            while j < len(blk) and isinstance(blk[j], ast.If) and not blk[j].orelse and _leaves(blk[j].body[-1]):
                 c = _cond(blk[j].test)
                 if c is None or (scr is not None and c[0] != scr):
                     break
@@ -76,7 +81,7 @@ def find_chain(fn, min_arms=3):
                 j += 1
             else_body = blk[j:]
             # the last arm may be written as the negated guard: `if x != C: <default, leaves>` followed by the body of arm C
-            if j < len(blk) and isinstance(blk[j], ast.If) and not blk[j].orelse and isinstance(blk[j].body[-1], (ast.Return, ast.Raise)) \
+            if j < len(blk) and isinstance(blk[j], ast.If) and not blk[j].orelse and _leaves(blk[j].body[-1]) \
                     and isinstance(blk[j].test, ast.Compare) and len(blk[j].test.ops) == 1 and isinstance(blk[j].test.ops[0], ast.NotEq):
                 eqt = ast.Compare(left=blk[j].test.left, ops=[ast.Eq()], comparators=blk[j].test.comparators)
                 c = _cond(eqt)
@@ -137,15 +142,16 @@ def arm_facts(body):
 
 
 def _lin(e):
-    """e == base + k  ->  (base_text, k)"""
-    if isinstance(e, ast.BinOp) and isinstance(e.op, ast.Add):
-        if _const(e.right) is not None:
-            return (ast.unparse(e.left), _const(e.right))
-        if _const(e.left) is not None:
-            return (ast.unparse(e.right), _const(e.left))
-    if isinstance(e, ast.Name):
-        return (e.id, 0)
-    return None
+    """e == base + k  ->  (base_text, k)   (any linear spelling: `off + 1 + 2`, `1 + off`)"""
+    from .linexpr import lin, show, NotLinear
+    try:
+        d = lin(e)
+    except NotLinear:
+        return None
+    k = d.pop(1, 0)
+    if not d:
+        return None
+    return (show(d), k)
 
 
 def fmt_widths(fmt):
@@ -156,9 +162,44 @@ def fmt_widths(fmt):
         raise AnalysisError(f'unknown struct format {fmt!r}')
 
 
+def _inline_arith_locals(fn):
+    """copy of fn in which locals bound exactly once to pure arithmetic over names and constants (`start = offset + 1`) are read as
+    their definition and the binding is dropped: the decision chain and its slices are then spelled as in the unhoisted form"""
+    import copy
+    fn = copy.deepcopy(fn)
+    stores = {}
+    for x in ast.walk(fn):
+        if isinstance(x, ast.Name) and isinstance(x.ctx, (ast.Store, ast.Del)):
+            stores[x.id] = stores.get(x.id, 0) + 1
+    params = {a.arg for a in fn.args.posonlyargs + fn.args.args + fn.args.kwonlyargs}
+    env = {}
+    for x in ast.walk(fn):
+        if isinstance(x, ast.Assign) and len(x.targets) == 1 and isinstance(x.targets[0], ast.Name) and stores.get(x.targets[0].id) == 1 \
+                and x.targets[0].id not in params and isinstance(x.value, ast.BinOp) \
+                and all(isinstance(y, (ast.Name, ast.Constant, ast.BinOp, ast.operator, ast.Load)) for y in ast.walk(x.value)) \
+                and all(stores.get(y.id, 0) == 0 or y.id in params and stores.get(y.id, 0) == 0 for y in ast.walk(x.value) if isinstance(y, ast.Name)):
+            env[x.targets[0].id] = x.value
+    if not env:
+        return fn
+
+    class T(ast.NodeTransformer):
+        def visit_Name(self, n):
+            if isinstance(n.ctx, ast.Load) and n.id in env:
+                return copy.deepcopy(env[n.id])
+            return n
+
+        def visit_Assign(self, n):
+            if len(n.targets) == 1 and isinstance(n.targets[0], ast.Name) and n.targets[0].id in env:
+                return None
+            return self.generic_visit(n)
+    fn = T().visit(fn)
+    ast.fix_missing_locations(fn)
+    return fn
+
+
 def table_of(P, qual, min_arms=3):
     F = P.func(qual)
-    ch = find_chain(F.node, min_arms)
+    ch = find_chain(_inline_arith_locals(F.node), min_arms)
     if ch is None:
         raise AnalysisError(f'{qual}: no decision chain on a single scrutinee found (TBL shape not recognised)')
     scr, arms, else_body = ch
